@@ -113,7 +113,7 @@ CLAIMED = {
                 "chi2_probability subtracts (D2); the pointwise twin keeps the effective flags (D3); implicit arguments are appended and stripped symmetrically "
                 "(D4); y-only XY variants wire y_ nodes only (D5); invalidation callbacks are stored in fields that are read and both containers are hooked (D6); "
                 "normalised axis used (D8); the node bound to `model` depends on the parameters (D9); implicit chi2_no_errors switch, tolerance-free diagonality "
-                "test and cost selection in do_fit (Dsw). Each rule is a necessary condition of 'cost = documented -2 log L of exactly the declared inputs'. Added: canonical forms of the projection of x uncertainties onto y (V_y + V_x o outer(f', f') with signed slopes; pointwise in quadrature), of total = data + model, and the wiring of the projected nodes.",
+                "test and cost selection in do_fit (Dsw; the predicate that lets the pointwise cost stand in for the covariance cost must not read a graph node that depends on the parameter values - it looks at the correlation matrices of the sources of both containers). Each rule is a necessary condition of 'cost = documented -2 log L of exactly the declared inputs'. Added: canonical forms of the projection of x uncertainties onto y (V_y + V_x o outer(f', f') with signed slopes; pointwise in quadrature), of total = data + model, and the wiring of the projected nodes.",
         "note": "Numerical equality of the QR/Cholesky chi2 with r^T V^-1 r, the formulas inside the handles and the numerical derivative of the x-projection "
                 "are not decided here. Known, not checked: histogram model-relative uncertainties are relative to the unscaled density integral (FIXME in "
                 "kafe2/fit/histogram/fit.py). MultiFit / CustomFit graphs are built from runtime objects and are outside the constant evaluator.",
@@ -138,7 +138,7 @@ CLAIMED = {
                 "model, both constraint classes and MultiFit equals data points - parameters + fixed + constraint measurements; chi2 probability is "
                 "1 - chi2.cdf(cost - determinant, ndf) and every determinant subtraction in FitBase/MultiFit.chi2_probability is guarded by the flag saying "
                 "the cost contains that term; goodness of fit = full cost with zeroed determinant minus the handle at model := data (argument positions "
-                "looked up by the cost function's own names), the Gaussian-approximation override restores its flag; MultiFit overrides keep the base terms. Added: is_diagonal is exact (no tolerance); MultiFit.goodness_of_fit contains the constraint cost of the MultiFit and of members covered by the shared cost; (H-det) the determinant term taken off the cost is the last argument of the cost function of the same fit, for a single fit and for every MultiFit member; (H-pw) the pointwise twin of a cost function is constructed with every constructor argument that selects the nodes the cost reads (axes_to_use).",
+                "looked up by the cost function's own names), the Gaussian-approximation override restores its flag; MultiFit overrides keep the base terms. Added: is_diagonal is exact (no tolerance); MultiFit.goodness_of_fit contains the constraint cost of the MultiFit and of members covered by the shared cost; (H-det) the determinant term taken off the cost is the last argument of the cost function of the same fit, for a single fit and for every MultiFit member; (H-pw) the pointwise twin of a cost function is constructed with every constructor argument that selects the nodes the cost reads (axes_to_use); the goodness of fit selects the pointwise twin by a predicate that does not depend on the parameter values (shared with C01 Dsw).",
         "note": "Numerical values are not decided. A formula rewritten with symbols the specification does not mention is reported as ANALYSIS-ERROR "
                 "(cannot be judged), never as a violation; a dropped/changed term, coefficient, sign or argument order is a violation.",
         "technique": "expression normalisation to canonical polynomial forms + structural guard rules (no paths, no solver)",
